@@ -1,1 +1,2 @@
 pub mod child;
+pub mod guard;
